@@ -61,6 +61,13 @@ let sub_of (x : sx) : subtable =
                  | L [g; c; x; y] -> (sx_n g, (sx_nat c, (sx_z x, sx_z y)))
                  | _ -> failwith "bad mark record") (lst marks),
                List.map (pair sx_n (fun l -> List.map anchor_of (lst l))) (lst bases))
+  | L [A "mm"; marks; bases] ->
+    SMarkMark (List.map (fun e -> match e with
+                 | L [g; c; x; y] -> (sx_n g, (sx_nat c, (sx_z x, sx_z y)))
+                 | _ -> failwith "bad mark record") (lst marks),
+               List.map (pair sx_n (fun l -> List.map anchor_of (lst l))) (lst bases))
+  | L [A "r8"; m; b; l] ->
+    SRevChain (List.map (pair sx_n sx_n) (lst m), List.map glist (lst b), List.map glist (lst l))
   | L [A "unsup"] -> SUnsupported
   | _ -> failwith "bad subtable"
 
